@@ -534,7 +534,7 @@ func TestVerif_C09(t *testing.T) {
 				if n <= nMain {
 					vs = append(vs, c09Variant{kd, "workload", "ingress", false, 4})
 				}
-				if n <= nSide || (n <= nMain && c.Thorough()) {
+				if n <= nSide {
 					vs = append(vs, c09Variant{kd, "workload", "egress", false, 4})
 				}
 				if n <= nSide {
